@@ -1,7 +1,6 @@
 package h
 
 import (
-	"bytes"
 	"context"
 	"encoding/base64"
 	"errors"
@@ -57,7 +56,52 @@ func (f *fakeRT) RoundTrip(req *http.Request) (*http.Response, error) {
 	if n >= 3 && body[0] == 1 && body[1] == 2 && body[2] == 3 { // the sim server's "garbage" datagram
 		code = 502
 	}
-	return &http.Response{StatusCode: code, Body: io.NopCloser(bytes.NewReader(body)), Header: http.Header{}, Request: req}, nil
+	// The body arrives in pieces (an HTTP body is a stream: a Read returns what
+	// has arrived so far), with or without a declared Content-Length.
+	resp := &http.Response{StatusCode: code, Body: io.NopCloser(&pieceReader{b: body}), Header: http.Header{}, Request: req, ContentLength: -1}
+	if simrt.Choose(3) != 0 {
+		resp.ContentLength = int64(len(body))
+	}
+	return resp, nil
+}
+
+// pieceReader hands out its bytes in PRNG-sized pieces (biased to cuts around
+// the 12-byte DNS header).
+type pieceReader struct {
+	b   []byte
+	off int
+}
+
+func (p *pieceReader) Read(dst []byte) (int, error) {
+	rest := len(p.b) - p.off
+	if rest == 0 {
+		return 0, io.EOF
+	}
+	n := rest
+	switch simrt.Choose(6) {
+	case 0:
+		n = 1
+	case 1:
+		n = 11
+	case 2:
+		n = 12
+	case 3:
+		n = 13
+	case 4:
+		n = 1 + simrt.Choose(rest)
+	}
+	if n > rest {
+		n = rest
+	}
+	if n > len(dst) {
+		n = len(dst)
+	}
+	if n < rest {
+		simrt.Fault("doh_body_in_pieces")
+	}
+	copy(dst, p.b[p.off:p.off+n])
+	p.off += n
+	return n, nil
 }
 
 type dohUp struct{ u *doh.Upstream }
